@@ -60,7 +60,7 @@ def run(ck, a):
                'slack': 'sphere-capsule optimality up to 1e-9 m^2 (upstream regularises the projection by 1e-6); capsule-capsule informational only (epsilon-regularised upstream)',
                'outside': 'boxes, meshes, convex pairs; float round-off; coincident centres'}
   ck.assumptions += ['reals for floats', 'sqrt as constrained variable', 'slice mode: sphere centres >= 1 cm apart and a sphere centre >= 1 cm from the axis line of a paired capsule']
-  kinds_cycle = [['sphere', 'sphere'], ['sphere', 'capsule'], ['capsule', 'capsule'], None, ['capsule', 'sphere'], ['sphere', 'sphere'], ['capsule', 'capsule'], None]
+  kinds_cycle = [['sphere', 'sphere'], ['capsule', 'sphere'], ['capsule', 'capsule'], None, ['sphere', 'capsule'], ['sphere', 'sphere'], ['capsule', 'capsule'], None]   # capsule-on-earlier-link + sphere-on-later-link: geom1 of the pair is on the LATER link
   replay_scenes = {}
   for si in range(nscenes):
     small = (si % 4 != 3)          # 3 of 4 scenes: two bodies with one geom each (slice mode affordable); every 4th: 3 bodies, several geoms, full mode only
@@ -74,6 +74,22 @@ def run(ck, a):
     mj = mujoco.MjModel.from_xml_string(xml)
     nb = len(spec['bodies'])
     ng = mj.ngeom
+    # loader plumbing (brax/io/mjcf.py _get_custom): the per-geom elasticity of the DOCUMENT must land in slot <geom id> of sys.elasticity, for both ways of
+    # writing it (a <tuple> of geom elements, a <numeric> vector with one value per geom).  The values are pairwise distinct, the loader moves them without
+    # arithmetic, so slot identity for these tokens is slot identity for every value; everything downstream takes sys.elasticity as symbolic reals.
+    doc_el = {'floor': 0.1}
+    for j_ in range(ng - 1):
+      doc_el['g%d' % j_] = 0.1 * (j_ + 2)
+    gnames = [mujoco.mj_id2name(mj, mujoco.mjtObj.mjOBJ_GEOM, i) for i in range(ng)]
+    want_el = [doc_el[n_] for n_ in gnames]
+    spec_v = dict(spec, custom=['<numeric name="elasticity" data="%s"/>' % ' '.join(repr(x) for x in want_el)])
+    for form, sy in (('tuple', lambda: sys_), ('numeric-vector', lambda: mjcf.loads(models.to_xml(spec_v)))):
+      try:
+        got_el = [float(x) for x in np.asarray(sy().elasticity)]
+      except Exception as ex:
+        got_el = ['loader raised %r' % (ex,)]
+      okl = len(got_el) == ng and all(isinstance(x, float) and abs(x - w) < 1e-12 for x, w in zip(got_el, want_el))
+      ck.add(Ob('loader-elasticity/%s/s%02d' % (form, si), [], z3.BoolVal(bool(okl)), timeout=5, meta={'form': form, 'xml': xml if form == 'tuple' else models.to_xml(spec_v), 'want': want_el, 'got': got_el}))
     rots = [rng.choice(models.QUATS) for _ in range(nb)]
     rot = core.consts([[F(repr(float(x))) for x in r] for r in rots])
     el = core.reals('e', (ng,))
@@ -307,6 +323,14 @@ def run(ck, a):
   from checks.c13 import qmat as c13_qmat
   for p in ('link_idx', 'elasticity', 'plane-', 'sphere-', 'capsule-'):
     ck.replayers[p] = replay
+  def replay_loader(ob):
+    try:
+      got = [float(x) for x in np.asarray(mjcf.loads(ob.meta['xml']).elasticity)]
+    except Exception as ex:
+      return True, {'xml': ob.meta['xml'], 'loader_raised': repr(ex), 'expected_sys_elasticity': ob.meta['want']}
+    bad = len(got) != len(ob.meta['want']) or any(abs(x - w) > 1e-12 for x, w in zip(got, ob.meta['want']))
+    return bool(bad), {'xml': ob.meta['xml'], 'expected_sys_elasticity': ob.meta['want'], 'observed_sys_elasticity': got}
+  ck.replayers['loader-elasticity'] = replay_loader
   ck.discharge()
   ck.cross_check(n=1, timeout=10)
 
